@@ -2,26 +2,33 @@
 mod proofs {
     use super::*;
     use std::str::FromStr;
+    pub fn stub_format(_: core::fmt::Arguments<'_>) -> String { String::new() }
     pub fn naive_memchr(x: u8, text: &[u8]) -> Option<usize> { let mut i = 0; while i < text.len() { if text[i] == x { return Some(i); } i += 1; } None }
-    macro_rules! rt { ($name:ident, $ty:ty, [$($v:expr),* $(,)?]) => {
-        #[kani::proof] #[kani::unwind(24)] #[kani::stub(core::slice::memchr::memchr, naive_memchr)]
-        fn $name() {
-            let vals: &[$ty] = &[$($v),*];
-            let i: usize = kani::any(); kani::assume(i < vals.len());
+    // every value is checked in turn (concrete per iteration: a symbolic choice among string literals of different
+    // lengths gave a counterexample that does not replay, see DESIGN.md "encoding pitfalls")
+    fn rt<T: Copy + PartialEq + ToString + FromStr>(vals: &[T]) {
+        let mut i = 0;
+        while i < vals.len() {
             let v = vals[i];
             let s = v.to_string();
-            let r = <$ty>::from_str(&s);
+            let r = T::from_str(&s);
             assert!(matches!(&r, Ok(x) if *x == v), "value does not round-trip through its command-line text form");
             core::mem::forget(r); core::mem::forget(s);
+            i += 1;
         }
-    } }
-    rt!(enum_variation_roundtrip, EnumVariation, [EnumVariation::Rust { non_exhaustive: false }, EnumVariation::Rust { non_exhaustive: true },
-        EnumVariation::NewType { is_bitfield: true, is_global: false }, EnumVariation::NewType { is_bitfield: false, is_global: false },
-        EnumVariation::NewType { is_bitfield: false, is_global: true }, EnumVariation::Consts, EnumVariation::ModuleConsts]);
-    rt!(macro_type_variation_roundtrip, MacroTypeVariation, [MacroTypeVariation::Signed, MacroTypeVariation::Unsigned]);
-    rt!(alias_variation_roundtrip, AliasVariation, [AliasVariation::TypeAlias, AliasVariation::NewType, AliasVariation::NewTypeDeref]);
-    rt!(non_copy_union_style_roundtrip, NonCopyUnionStyle, [NonCopyUnionStyle::BindgenWrapper, NonCopyUnionStyle::ManuallyDrop]);
-    rt!(formatter_roundtrip, Formatter, [Formatter::None, Formatter::Rustfmt]);
-    rt!(field_visibility_roundtrip, FieldVisibilityKind, [FieldVisibilityKind::Private, FieldVisibilityKind::PublicCrate, FieldVisibilityKind::Public]);
-    rt!(abi_roundtrip, Abi, [Abi::C, Abi::Stdcall, Abi::EfiApi, Abi::Fastcall, Abi::ThisCall, Abi::Vectorcall, Abi::Aapcs, Abi::Win64, Abi::CUnwind, Abi::System]);
+    }
+    #[kani::proof] #[kani::unwind(24)] #[kani::stub(core::slice::memchr::memchr, naive_memchr)] #[kani::stub(alloc::fmt::format, stub_format)]
+    fn enum_variation_roundtrip() { rt(&[EnumVariation::Rust { non_exhaustive: false }, EnumVariation::Rust { non_exhaustive: true }, EnumVariation::NewType { is_bitfield: true, is_global: false }, EnumVariation::NewType { is_bitfield: false, is_global: false }, EnumVariation::NewType { is_bitfield: false, is_global: true }, EnumVariation::Consts, EnumVariation::ModuleConsts]) }
+    #[kani::proof] #[kani::unwind(24)] #[kani::stub(core::slice::memchr::memchr, naive_memchr)] #[kani::stub(alloc::fmt::format, stub_format)]
+    fn macro_type_variation_roundtrip() { rt(&[MacroTypeVariation::Signed, MacroTypeVariation::Unsigned]) }
+    #[kani::proof] #[kani::unwind(24)] #[kani::stub(core::slice::memchr::memchr, naive_memchr)] #[kani::stub(alloc::fmt::format, stub_format)]
+    fn alias_variation_roundtrip() { rt(&[AliasVariation::TypeAlias, AliasVariation::NewType, AliasVariation::NewTypeDeref]) }
+    #[kani::proof] #[kani::unwind(24)] #[kani::stub(core::slice::memchr::memchr, naive_memchr)] #[kani::stub(alloc::fmt::format, stub_format)]
+    fn non_copy_union_style_roundtrip() { rt(&[NonCopyUnionStyle::BindgenWrapper, NonCopyUnionStyle::ManuallyDrop]) }
+    #[kani::proof] #[kani::unwind(24)] #[kani::stub(core::slice::memchr::memchr, naive_memchr)] #[kani::stub(alloc::fmt::format, stub_format)]
+    fn formatter_roundtrip() { rt(&[Formatter::None, Formatter::Rustfmt]) }
+    #[kani::proof] #[kani::unwind(24)] #[kani::stub(core::slice::memchr::memchr, naive_memchr)] #[kani::stub(alloc::fmt::format, stub_format)]
+    fn field_visibility_roundtrip() { rt(&[FieldVisibilityKind::Private, FieldVisibilityKind::PublicCrate, FieldVisibilityKind::Public]) }
+    #[kani::proof] #[kani::unwind(24)] #[kani::stub(core::slice::memchr::memchr, naive_memchr)] #[kani::stub(alloc::fmt::format, stub_format)]
+    fn abi_roundtrip() { rt(&[Abi::C, Abi::Stdcall, Abi::EfiApi, Abi::Fastcall, Abi::ThisCall, Abi::Vectorcall, Abi::Aapcs, Abi::Win64, Abi::CUnwind, Abi::System]) }
 }
